@@ -250,5 +250,104 @@ theorem while_step (i : Int) (m : Nat) (ks : List BT) (h : Int) (sid : Nat) (res
   · simp [bt_assemble.while4_cond, hst]; omega
   · exact ⟨by rw [hi']; exact hi, by rw [hp']; exact hp, by rw [hb']; exact hb⟩
 
+theorem whileF_step {V R : Type} (c : V → Option Bool) (b : V → Res V R) (n : Nat) (v v1 : V)
+    (hc : c v = some true) (hb : b v = .next v1) : whileF c b (n + 1) v = whileF c b n v1 := by
+  simp [whileF, hc, hb]
+
+-- **the generated loop is the model's structural recursion**: with `(h, sid)` on top of the stack, `t.size` iterations pop it,
+-- append exactly the rows `sub t sid (length so far)` and leave the rest of the stack alone (any amount `f` of fuel may remain)
+mutual
+theorem gen_sub (t : BT) (h : Int) (sid : Nat) (rest : List (Int × Int)) (v : bt_assemble.V σ) (out : List Int) (f : Nat)
+    (hrep : Rep pair dupFirst dupLast ids pids branches t h) (hst : v.stack = rest ++ [(h, (sid : Int))])
+    (ht : Tab v.nodes out) (hfix : Fix ids pids branches v) :
+    ∃ v', whileF (bt_assemble.while4_cond pair dupFirst dupLast) (bt_assemble.while4_body pair dupFirst dupLast) (t.size + f) v =
+        whileF (bt_assemble.while4_cond pair dupFirst dupLast) (bt_assemble.while4_body pair dupFirst dupLast) f v' ∧
+      v'.stack = rest ∧ Tab v'.nodes (out ++ sub t sid out.length) ∧ Fix ids pids branches v' := by
+  match t with
+  | .node i m ks =>
+    obtain ⟨prs, v1, hL, hc, hb, ht1, hs1, hfix1⟩ := while_step pair dupFirst dupLast ids pids branches i m ks h sid rest v out hrep hst ht hfix
+    have e1 : (BT.node i m ks).size + f = (Asm.sizeL ks + f) + 1 := by simp [BT.size]; omega
+    rw [e1, whileF_step _ _ _ _ _ hc hb]
+    obtain ⟨v', e, hs', ht', hfix'⟩ := gen_subRev ks h prs (chains ks sid out.length).2 (chains_length ks sid out.length) rest v1 _ f hL hs1 ht1 hfix1
+    refine ⟨v', e, hs', ?_, hfix'⟩
+    simpa [sub, List.append_assoc] using ht'
+theorem gen_subRev (ks : List BT) (h : Int) (prs : List (List Int × Int)) (cids : List Nat) (hl : cids.length = ks.length)
+    (rest : List (Int × Int)) (v : bt_assemble.V σ) (out : List Int) (f : Nat)
+    (hrep : RepL pair dupFirst dupLast ids pids branches ks h prs)
+    (hst : v.stack = rest ++ List.zip (prs.map (·.2)) (cids.map (fun (k : Nat) => (k : Int))))
+    (ht : Tab v.nodes out) (hfix : Fix ids pids branches v) :
+    ∃ v', whileF (bt_assemble.while4_cond pair dupFirst dupLast) (bt_assemble.while4_body pair dupFirst dupLast) (Asm.sizeL ks + f) v =
+        whileF (bt_assemble.while4_cond pair dupFirst dupLast) (bt_assemble.while4_body pair dupFirst dupLast) f v' ∧
+      v'.stack = rest ∧ Tab v'.nodes (out ++ subRev ks cids out.length) ∧ Fix ids pids branches v' := by
+  match ks, prs, cids, hl, hrep, hst with
+  | [], [], _, _, _, hst => exact ⟨v, by simp [Asm.sizeL], by simpa using hst, by simpa [subRev] using ht, hfix⟩
+  | [], _ :: _, _, _, hrep, _ => simp [RepL] at hrep
+  | _ :: _, [], _, _, hrep, _ => simp [RepL] at hrep
+  | k :: ks, _ :: _, [], hl, _, _ => simp at hl
+  | k :: ks, pr :: prs, cid :: cids, hl, hrep, hst =>
+    simp only [RepL] at hrep
+    obtain ⟨_, hk, hL⟩ := hrep
+    have e : Asm.sizeL (k :: ks) + f = Asm.sizeL ks + (k.size + f) := by simp [Asm.sizeL]; omega
+    have hst1 : v.stack = (rest ++ [(pr.2, (cid : Int))]) ++ List.zip (prs.map (·.2)) (cids.map (fun (k : Nat) => (k : Int))) := by
+      simpa using hst
+    obtain ⟨v1, e1, hs1, ht1, hfix1⟩ := gen_subRev ks h prs cids (by simpa using hl) (rest ++ [(pr.2, (cid : Int))]) v out (k.size + f) hL hst1 ht hfix
+    obtain ⟨v', e', hs', ht', hfix'⟩ := gen_sub k pr.2 cid rest v1 _ f hk hs1 ht1 hfix1
+    refine ⟨v', by rw [e, e1, e'], hs', ?_, hfix'⟩
+    simpa [subRev, List.append_assoc] using ht'
+end
+
+/-- `[n.id for n in nodes]` -/
+theorem for5_loop : ∀ (xs : List DNode) (v : bt_assemble.V σ),
+    forEach (bt_assemble.for5 pair dupFirst dupLast) xs v =
+      .next { v with c16_ := v.c16_ ++ xs.map (·.id), n := xs.getLast?.getD v.n } := by
+  intro xs
+  induction xs with
+  | nil => intro v; simp [forEach]
+  | cons x xs ih => intro v; simp only [forEach, bt_assemble.for5]; rw [ih]; simp [List.getLast?_cons]
+
+/-- `[n.pid for n in nodes]` -/
+theorem for6_loop : ∀ (xs : List DNode) (v : bt_assemble.V σ),
+    forEach (bt_assemble.for6 pair dupFirst dupLast) xs v =
+      .next { v with c18_ := v.c18_ ++ xs.map (·.pid), n := xs.getLast?.getD v.n } := by
+  intro xs
+  induction xs with
+  | nil => intro v; simp [forEach]
+  | cons x xs ih => intro v; simp only [forEach, bt_assemble.for6]; rw [ih]; simp [List.getLast?_cons]
+
+/-- the variables when the `while` loop is entered -/
+def init0 (s0 : σ) : bt_assemble.V σ :=
+  { (default : bt_assemble.V σ) with ids := ids, pids := pids, branches := branches, cbs := s0, nodes := [⟨0, -1⟩], stack := [((0 : Int), (0 : Int))] }
+
+/-- **refinement**: on every input that represents the rose tree `root` (at the handle 0 of the soma), for every initial state of the
+`pair` callback and every fuel ≥ `root.size + 1`, the generated `BranchTreeAssembler.__call__` returns the ids `0 .. n-1` and the
+parent list `-1 :: sub root 0 1` (= `Asm.assemble root`, `C16Asm.assemble_eq`) -/
+theorem assemble_refines (root : BT) (s0 : σ) (fuel : Nat) (hf : root.size + 1 ≤ fuel)
+    (hrep : Rep pair dupFirst dupLast ids pids branches root 0) :
+    ∃ s', bt_assemble pair dupFirst dupLast fuel ids pids branches s0 =
+      some (s', ((List.range (1 + (sub root 0 1).length)).map (fun (k : Nat) => (k : Int)), -1 :: sub root 0 1)) := by
+  obtain ⟨f, rfl⟩ : ∃ f, fuel = root.size + (f + 1) := ⟨fuel - root.size - 1, by omega⟩
+  have hinit : bt_assemble.body pair dupFirst dupLast (root.size + (f + 1))
+        { (default : bt_assemble.V σ) with ids := ids, pids := pids, branches := branches, cbs := s0 } =
+      (Py.seq (Py.whileF (bt_assemble.while4_cond pair dupFirst dupLast) (bt_assemble.while4_body pair dupFirst dupLast) (root.size + (f + 1)))
+        (fun (v : bt_assemble.V σ) =>
+          Py.bindS (((Py.seq (fun (v : bt_assemble.V σ) => .next { v with c16_ := ([] : List Int) })
+            (fun (v : bt_assemble.V σ) => Py.forEach (bt_assemble.for5 pair dupFirst dupLast) v.nodes v))) v) fun (v : bt_assemble.V σ) =>
+          Py.bindS (((Py.seq (fun (v : bt_assemble.V σ) => .next { v with c18_ := ([] : List Int) })
+            (fun (v : bt_assemble.V σ) => Py.forEach (bt_assemble.for6 pair dupFirst dupLast) v.nodes v))) v) fun (v : bt_assemble.V σ) =>
+          .ret v (v.c16_, v.c18_))) (init0 ids pids branches s0) := by
+    simp only [bt_assemble.body, Py.seq, Py.bind, node_detach_eq, init0]
+  obtain ⟨v', e, hs', ht', _⟩ := gen_sub pair dupFirst dupLast ids pids branches root 0 0 [] (init0 ids pids branches s0) [-1] (f + 1)
+    hrep (by simp [init0]) (by simp [init0, Tab]) (by simp [init0, Fix])
+  have hend : whileF (bt_assemble.while4_cond pair dupFirst dupLast) (bt_assemble.while4_body pair dupFirst dupLast) (f + 1) v' = .next v' := by
+    simp [whileF, bt_assemble.while4_cond, hs']
+  rw [hend] at e
+  refine ⟨v'.cbs, ?_⟩
+  simp only [bt_assemble, hinit]
+  simp only [Py.seq, e, Py.bindS, for5_loop, for6_loop, Py.finish, List.nil_append, Option.map_some]
+  obtain ⟨h1, h2⟩ := ht'
+  simp only [List.cons_append, List.nil_append, List.length_cons] at h1 h2
+  rw [h1, h2]
+  simp only [List.length_nil, Nat.zero_add, Nat.add_comm (sub root 0 1).length 1]
+
 end
 end RefineAsm
